@@ -263,7 +263,6 @@ termination_by s.total
 inductive Op
   | hs         -- c.readHandshake
   | ccs        -- c.readChangeCipherSpec (after establishKeys: a next cipher is prepared)
-  | record     -- c.readRecord, directly
   | finish     -- the handshake completes (handshakeStatus = 1)
   | read       -- Conn.Read (only does anything once the handshake is complete)
   deriving Repr, DecidableEq
@@ -271,7 +270,6 @@ inductive Op
 def apply (L : Limits) (lib : Lib) (s : St) : Op → St
   | .hs => (readHandshake L lib s).1
   | .ccs => (readRecord L lib { s with nextCipher := true } true).1
-  | .record => (readRecord L lib s false).1
   | .finish => { s with complete := true }
   | .read => if s.complete then (readApp L lib s).1 else s
 
